@@ -101,6 +101,10 @@ class Real:
             return list(a)
         return None
 
+    def pair(self, i, e):
+        """the two-element list [i e] (built like any list literal is, not by a verb)"""
+        return self.k._backend.kg_asarray([i, e])
+
     def mklist(self, xs):
         """the list of separately computed values (kept on the Python side as a marker)"""
         return ExpList(xs)
@@ -132,7 +136,7 @@ def norm(v):
 
 ATOMIC = {"+", "-", "*", "%", "&", "|", "=", "<", ">", "!", "^", "{x+y}", "{x-y}", "{y-x}", "{(2*x)+y}",
           "{pyadd(x;y)}", "{x+1}", "{-x}", "-", "pj1", "pj2", "pyinc", "{pj1(x)}", "{pj2(x)}", "{pyinc(x)}"}
-TEXT_OK = {",", "~", "{x,y}", "{x,,y}", "{x}", "{,x}", "{x,x}", "{#x}", "#", "|"}
+TEXT_OK = {",", "~", "{x,y}", "{x,,y}", "{x}", "{,x}", "{x,x}", "{#x}", "#", "|", "{x@1}", "{*x}"}
 
 
 def mixed_numeric_array(v):
@@ -244,6 +248,13 @@ def expansion(r, adv, verb, args):
         if es is None or len(es) < 2:
             return args[0]
         return r.mklist([r.app2(verb, x, y) for x, y in zip(es, es[1:])])
+    if adv == "@'":
+        es = r.elems(args[0])
+        if es is None:
+            return r.app1(verb, r.pair(0, args[0]))
+        if not es:
+            return args[0]
+        return r.mklist([r.app1(verb, r.pair(i, e)) for i, e in enumerate(es)])
     if adv == ":*":
         n, b = args
         for _ in range(int(n)):
@@ -292,6 +303,9 @@ def gen_cases(ctx):
             for b in lists:
                 if a[0] == 'L' and b[0] == 'L' and len(a[1]) == len(b[1]):
                     cases.append(("'", verb, (a, b)))
+    for verb in LAM1 + ["{x@1}", "{*x}", "{(*x)+#x@1}"]:
+        for a in operands:
+            cases.append(("@'", verb, (a,)))
     for verb in v1:
         for a in operands:
             cases.append(("'", verb, (a,)))
@@ -350,6 +364,58 @@ def run_chains(ctx, r):
                             f"{{{verb}{a1}x}}{a2}a")
 
 
+def run_redefinition(ctx, r):
+    """a named verb is re-resolved at every evaluation: after the name is rebound, the same call
+    site (function body, identical top-level text) must apply the new definition"""
+    defs1 = [("f", "{x+1}", "{x*10}"), ("f", "{-x}", "{x,x}")]
+    defs2 = [("d", "{x-y}", "{y-x}"), ("d", "{x+y}", "{x,y}")]
+    operands = [U.from_py(x) for x in ([1, 2, 3], [10, 2, 3], [[1, 2], [3, 4]], [5])]
+    forms = [("'", 1), ("/", 2), ("\\", 2), (":'", 2), ("/'", 2)]
+    for adv, ar in forms:
+        for name, first, second in (defs1 if ar == 1 else defs2):
+            for a in operands:
+                if adv == "/'" and U.depth(a) < 2:
+                    continue
+                aname = r.bind(r.k(U.klit(a, False)))
+                site = f"{name}{adv}{aname}"
+                r.k(f"{name}::{first}")
+                r.k(f"g::{{{name}{adv}x}}")
+                outs = []
+                for body in (first, second):
+                    r.k(f"{name}::{body}")
+                    try:
+                        want = norm(U.canon(r.k(f"{body}{adv}{aname}")))       # the definition, inline
+                    except Exception:
+                        want = None
+                    for form, text in (("function-body", f"g({aname})"), ("same-text", site)):
+                        try:
+                            got = norm(U.canon(r.k(text)))
+                        except Exception as e:
+                            got = ('E', type(e).__name__)
+                        if want is None:
+                            continue
+                        ctx.count(("redef", adv, name, first, second, a, form, body))
+                        ctx.bump("redefinition:compared")
+                        if got[0] == 'E' or not U.veq(want, got):
+                            ctx.oracle_fail(f"redefinition:{form}:{adv}",
+                                            dict(program=[f"{name}::{first}", f"g::{{{name}{adv}x}}", f"g(a); {name}{adv}a",
+                                                          f"{name}::{second}", f"g(a); {name}{adv}a"], a=U.klit(a)),
+                                            U.show(want), U.show(got) if got[0] != 'E' else f"raises {got[1]}",
+                                            "after the verb's name is rebound the adverb must apply the current definition")
+    # a Python callable replaced through the interpreter's dictionary interface
+    calls = []
+    r.k["pf"] = lambda x: (calls.append(1), x + 1)[1]
+    r.k("h::{pf'x}")
+    v1 = U.canon(r.k("h([1 2 3])"))
+    r.k["pf"] = lambda x: x * 100
+    v2 = U.canon(r.k("h([1 2 3])"))
+    ctx.count(("redef-python",))
+    if not U.veq(v2, U.from_py([100, 200, 300])):
+        ctx.oracle_fail("redefinition:python-callable", dict(program=["klong['pf']=inc", "h::{pf'x}", "h([1 2 3])",
+                                                                     "klong['pf']=times100", "h([1 2 3])"]),
+                        "[100 200 300]", U.show(v2), "a replaced Python callable must be the one applied")
+
+
 def run(ctx):
     r = Real()
     drv = Driver("c02") if getattr(ctx, "driver_ok", True) else None
@@ -393,10 +459,15 @@ def run(ctx):
                 if got[0] != 'E' and U.veq(want, got, kinds=False) and mixed_numeric_array(want):
                     # a result list whose members mix integers and reals is stored as one float array
                     key = "mixed-numeric-level"
+                elif adv == "\\" and verb == "%" and got[0] != 'E' and U.veq(want, got, kinds=False):
+                    key = "scan:divide-first-slot-kind"
                 elif adv == "\\" and len(args) == 1 and scan_compiled_class(args[0]):
                     key = "scan:compiled-cumsum-rank"
                 elif adv == "/" and len(args) == 1 and args[0] == ('L', []) and verb in ("+", "*", "&", "|"):
                     key = "over:compiled-empty"
+                elif adv == "/" and len(args) == 1 and verb in ("&", "|") and args[0][0] == 'L' \
+                        and __import__("vlib.c01", fromlist=["num_shape"]).num_shape(args[0]) is None:
+                    key = "over:compiled-minmax-object-array"
                 elif got[0] != 'E' and pathological(want):
                     key = "result:object-array-rank2"
                 ctx.oracle_fail(key, dict(text=shown), U.show(want),
@@ -429,6 +500,7 @@ def run(ctx):
             if len(ctx.samples) < 6 and ctx.evaluations % 211 == 1:
                 ctx.sample(dict(text=shown, expansion=U.show(want), real=U.show(got)))
         run_chains(ctx, r)
+        run_redefinition(ctx, r)
     finally:
         if drv:
             drv.close()
